@@ -441,3 +441,69 @@ mut("c02-lut-hash-ignores-numvars-eq-not", "C02",
     ("src/lut.rs",
      "impl Default for Lut {",
      "impl PartialEq for Lut {\n    fn eq(&self, other: &Self) -> bool {\n        self.table == other.table\n    }\n}\n\nimpl Default for Lut {"))
+
+# ---------------------------------------------------------------- C10
+mut("c10-static-flip-wrong-n", "C10",
+    "StaticLut::flip_inplace passes N - 1 to the kernel for tables of 8 variables or more (debug assertion / wrong regime)",
+    ("src/static_lut.rs",
+     "        self.check_var(ind);\n        flip_inplace(N, self.table.as_mut(), ind);",
+     "        self.check_var(ind);\n        flip_inplace(if N >= 9 { N - 1 } else { N }, self.table.as_mut(), ind);"))
+mut("c10-u16-from-lut4-wrong-mask", "C10",
+    "From<Lut4> for u16 masks with the mask of variable 3 (drops the high byte)",
+    ("src/static_lut.rs",
+     "        (lut.table[0] & !VAR_MASK[4]) as u16",
+     "        (lut.table[0] & !VAR_MASK[3] | (lut.table[0] & 0x0100)) as u16"))
+mut("c10-tryfrom-compares-blocks", "C10",
+    "TryFrom<Lut> for StaticLut compares the number of blocks instead of the number of variables",
+    ("src/static_lut.rs",
+     "        if lut.num_vars() != N {\n            return Err(());\n        }",
+     "        if lut.num_blocks() != T {\n            return Err(());\n        }"))
+mut("c10-static-threshold-uses-t", "C10",
+    "StaticLut::threshold passes the word count instead of the variable count to the kernel for N >= 9",
+    ("src/static_lut.rs",
+     "        fill_threshold(N, ret.table.as_mut(), k);",
+     "        fill_threshold(if N >= 9 { T } else { N }, ret.table.as_mut(), k);"))
+mut("c10-static-cmp-ignores-top-word", "C10",
+    "Ord for StaticLut skips the most significant word for tables of 32 words or more",
+    ("src/static_lut.rs",
+     "impl<const N: usize, const T: usize> Ord for StaticLut<N, T> {\n    fn cmp(&self, other: &Self) -> Ordering {\n        return cmp(self.table.as_ref(), other.table.as_ref());",
+     "impl<const N: usize, const T: usize> Ord for StaticLut<N, T> {\n    fn cmp(&self, other: &Self) -> Ordering {\n        if T >= 32 {\n            return cmp(&self.table[..T - 1], &other.table[..T - 1]);\n        }\n        return cmp(self.table.as_ref(), other.table.as_ref());"))
+mut("c10-static-to-bin-uses-hex-width", "C10",
+    "StaticLut::to_bin_string passes N+1 to the kernel for N < 5",
+    ("src/static_lut.rs",
+     "        to_bin(self.num_vars(), self.table.as_ref())",
+     "        to_bin(if N == 4 { 5 } else { self.num_vars() }, self.table.as_ref())"))
+
+# ---------------------------------------------------------------- C17
+rev("c17-before-cofactors-fix", "C17", "tree before the fix of D5 (cofactors/from_cofactors without check_var)", "1edd39f")
+rev("c17-before-next-overflow-fix", "C17", "tree before the fix of D6 (valid successor step panics only with overflow checks)", "e64f310")
+mut("c17-lut-flip-no-check", "C17",
+    "Lut::flip_inplace without check_var (the kernel only debug_asserts)",
+    ("src/lut.rs",
+     "    pub fn flip_inplace(&mut self, ind: usize) {\n        self.check_var(ind);",
+     "    pub fn flip_inplace(&mut self, ind: usize) {"))
+mut("c17-decomposition-debug-assert", "C17",
+    "the decomposition helper checks the variable index with debug_assert! only",
+    ("src/decomposition.rs",
+     "    assert!(ind < num_vars);",
+     "    debug_assert!(ind < num_vars);"))
+mut("c17-static-check-bit-le", "C17",
+    "StaticLut::check_bit accepts ind == num_bits",
+    ("src/static_lut.rs",
+     "        assert!(ind < self.num_bits());",
+     "        assert!(ind <= self.num_bits());"))
+mut("c17-static-from-blocks-prefix", "C17",
+    "StaticLut::from_blocks copies the common prefix instead of requiring the exact length",
+    ("src/static_lut.rs",
+     "        let mut ret = Self::default();\n        ret.table.clone_from_slice(blocks);\n        ret",
+     "        let mut ret = Self::default();\n        let k = std::cmp::min(T, blocks.len());\n        ret.table[..k].clone_from_slice(&blocks[..k]);\n        ret"))
+mut("c17-lut-bitand-assign-no-size-check", "C17",
+    "BitAndAssign<&Lut> for Lut drops its size assertion (the kernel zips and only debug_asserts)",
+    ("src/lut.rs",
+     "    fn bitand_assign(&mut self, rhs: &Lut) {\n        assert!(self.num_vars == rhs.num_vars);",
+     "    fn bitand_assign(&mut self, rhs: &Lut) {"))
+mut("c17-swap-second-index-unchecked", "C17",
+    "Lut::swap_inplace checks only the first index",
+    ("src/lut.rs",
+     "        self.check_var(ind1);\n        self.check_var(ind2);\n        swap_inplace(self.num_vars, self.table.as_mut(), ind1, ind2);",
+     "        self.check_var(ind1);\n        swap_inplace(self.num_vars, self.table.as_mut(), ind1, ind2);"))
